@@ -204,6 +204,16 @@ func (u *Upstream) waitToSendAllDataPointsAndReceiveAllAck(ctx context.Context) 
 		return nil
 	}
 
+	// wake the wait below when the close timeout or the caller's context ends; acks alone may
+	// never arrive
+	wake := func() {
+		u.receivedAck.L.Lock()
+		u.receivedAck.Broadcast()
+		u.receivedAck.L.Unlock()
+	}
+	defer context.AfterFunc(parentCtx, wake)()
+	defer context.AfterFunc(ctx, wake)()
+
 	u.receivedAck.L.Lock()
 	var err error
 	var remaining map[uint32]DataPointGroups
